@@ -321,6 +321,8 @@ def make_recipe(rng, fid, Nx, Ny, flavour):
     'tree' (gates only on the bonds of a random spanning tree: the bond graph with D>1 is loop free)."""
     fam = family(fid)
     sites = f_sites(Nx, Ny)
+    if flavour == "rich":
+        return make_rich_recipe(rng, fid, Nx, Ny)
     init = {f"{s[0]},{s[1]}": rng.choice(sorted(fam.vecs)) for s in sites}
     bonds = all_bonds(Nx, Ny)
     rng.shuffle(bonds)
@@ -359,6 +361,45 @@ def make_recipe(rng, fid, Nx, Ny, flavour):
         gates.append(random_gate(rng, fam, bond=bonds[0]))
     loopfree = (Nx == 1 or Ny == 1 or flavour == "tree")
     return {"family": fid, "dims": [Nx, Ny], "init": init, "gates": gates, "flavour": flavour, "loopfree": loopfree}
+
+
+def make_rich_recipe(rng, fid, Nx, Ny):
+    """flavour 'rich': a state in which correlators of MANY operators do not vanish by particle-number / magnetisation
+    counting: every species at (about) half filling, one entangling gate on EVERY bond (spinful fermions: the hopping species
+    alternates so that both delocalise), loops allowed.  Same JSON format as make_recipe."""
+    fam = family(fid)
+    sites = f_sites(Nx, Ny)
+    N = len(sites)
+
+    def half():
+        k = N // 2 + (rng.randrange(2) if N % 2 else 0)
+        return set(rng.sample(sites, k))
+
+    if fam.kind == "sf":
+        occ = half()
+        lab = {s: ("1" if s in occ else "0") for s in sites}
+    elif fam.kind == "sff":
+        up, dn = half(), half()
+        lab = {s: ("1" if s in up else "0") + ("1" if s in dn else "0") for s in sites}
+    else:
+        up = half()
+        lab = {s: ("+" if s in up else "-") for s in sites}
+    init = {f"{s[0]},{s[1]}": lab[s] for s in sites}
+    bonds = all_bonds(Nx, Ny)
+    rng.shuffle(bonds)
+    gates = []
+    flip = rng.randrange(2)
+    for i, b in enumerate(bonds):
+        b2 = b if rng.random() < 0.7 else [b[1], b[0]]
+        gt = random_gate(rng, fam, bond=b2)
+        if fam.kind == "sff":
+            gt["spin"] = "ud"[(i + flip) % 2]
+        if gate_rank(gt) > 4:
+            continue
+        gates.append(gt)
+        if rng.random() < 0.25:
+            gates.append(random_gate(rng, fam, site=rng.choice(b)))
+    return {"family": fid, "dims": [Nx, Ny], "init": init, "gates": gates, "flavour": "rich", "loopfree": (Nx == 1 or Ny == 1)}
 
 
 def build_state(recipe):
@@ -462,7 +503,8 @@ def make_env(kind, psi, spec):
     import yastn.tn.fpeps as fpeps
     if kind == "bd":
         with ZipperWatch() as zw:
-            env = fpeps.EnvBoundaryMPS(psi, opts_svd={"D_total": BIG_D, "tol": 1e-14}, setup=spec["setup"])
+            env = fpeps.EnvBoundaryMPS(psi, opts_svd={"D_total": BIG_D, "tol": 1e-14}, setup=spec["setup"],
+                                       opts_var=spec.get("opts_var"))
         if zw.max_discarded > BIND:
             return None, "bd-setup-truncation-binds"
         return env, None
@@ -480,9 +522,27 @@ def make_env(kind, psi, spec):
     raise ValueError(kind)
 
 
+# options of the variational refinement of the boundary MPSs (passed to mps.compression_).  None = the documented default
+# {max_sweeps: 2, normalize: False}; a dict WITHOUT 'normalize' keeps compression_'s own default normalize=True, i.e. every
+# boundary MPS is normalised and each column / row carries its own norm (every measure_* must normalise consistently).
+BD_OPTS_VAR = [None, None, None,
+               {"max_sweeps": 2}, {"max_sweeps": 1}, {"max_sweeps": 1, "normalize": True}, {"max_sweeps": 3, "method": "2site"},
+               {"max_sweeps": 2, "normalize": False}, {"max_sweeps": 1, "normalize": False, "method": "2site"}]
+
+
+def opts_var_class(ov):
+    if ov is None:
+        return "default"
+    return "normalized" if ov.get("normalize", True) else "unnormalized"
+
+
 def env_spec(rng, kind, Nx, Ny):
     if kind == "bd":
-        return {"setup": rng.choice(["lrtb", "lrtb", "lr", "tb", "rltb", "btrl"])}
+        spec = {"setup": rng.choice(["lrtb", "lrtb", "lr", "tb", "rltb", "btrl"])}
+        ov = rng.choice(BD_OPTS_VAR)
+        if ov is not None:
+            spec["opts_var"] = dict(ov)
+        return spec
     if kind == "ctm":
         init = rng.choice(["eye", "dl"])
         need = max(Nx, Ny) - 1 - (1 if init == "dl" else 0)
@@ -506,7 +566,14 @@ def run_probe(fam, env, probe):
     ops = [fam.opt[nm] for nm in names]
     out = []
     if fn == "measure_1site":
-        if probe.get("site") is None:
+        if probe.get("style") == "lists":
+            # documented input form: a dict site -> list of operators (all sites at once, several operators per site);
+            # the results are keyed (x, y, index of the operator in the list of that site)
+            per = {tuple(map(int, k.split(","))): v for k, v in probe["per_site"].items()}
+            res = env.measure_1site({s: [fam.opt[nm] for nm in lst] for s, lst in per.items()})
+            for k, val in res.items():
+                out.append(([per[key_site(k)][int(k[2])]], [key_site(k)], val))
+        elif probe.get("site") is None:
             res = env.measure_1site(ops[0])
             for k, val in res.items():
                 out.append((names, [key_site(k)], val))
@@ -527,6 +594,8 @@ def run_probe(fam, env, probe):
             kw["pairs"] = [(tuple(a), tuple(b)) for a, b in kw["pairs"]]
         if "xrange" in probe:
             kw["xrange"], kw["yrange"] = tuple(probe["xrange"]), tuple(probe["yrange"])
+        if probe.get("opts_var") is not None:
+            kw["opts_var"] = dict(probe["opts_var"])
         res = env.measure_2site(ops[0], ops[1], **kw)
         for (k0, k1), val in res.items():
             out.append((names, [key_site(k0), key_site(k1)], val))
@@ -553,7 +622,71 @@ def neutral_pairs(fam):
     return [(a, b) for a in pool for b in pool if fam.neutral([a, b]) and not (a == "I" and b == "I")]
 
 
-def plan_probes(rng, fam, kind, spec, Nx, Ny, quick, recipe=None):
+def charged_word(rng, fam, m, tries=60):
+    """m operators with NON-ZERO charge and vanishing total charge (None if there is none, e.g. odd m in U(1))"""
+    pool = [nm for nm in sorted(fam.opt) if fam.n[nm] != fam.zero]
+    if not pool:
+        return None
+    for _ in range(tries):
+        w = [rng.choice(pool) for _ in range(m)]
+        if fam.neutral(w):
+            return w
+    return None
+
+
+def overlap_candidate(rng, fam, dense, pool, kmax):
+    """one many-operator word on pairwise distinct sites of `pool`: m >= 3 charged operators (their Jordan-Wigner strings
+    overlap: partial sums of the charges along the fermionic order reach values other than 0, +-1, and different operators
+    contribute different charges to the same tensor) + possibly a few neutral ones.  With probability 0.6 equal operators
+    sit on consecutive sites of the fermionic order ('stacked': equal-sign strings pile up); the order of the operators in
+    the product is random."""
+    kmax = min(kmax, len(pool))
+    word = None
+    for _ in range(20):
+        m = rng.choice([3, 4, 4, 4, 5, 6])
+        if m <= kmax:
+            word = charged_word(rng, fam, m)
+        if word:
+            break
+    if not word:
+        return None
+    even = [nm for nm in sorted(fam.opt) if fam.n[nm] == fam.zero and nm != "I"]
+    extra = [rng.choice(even) for _ in range(rng.choice([0, 0, 1, 2]))][:kmax - len(word)] if even else []
+    ss = sorted(rng.sample(pool, len(word) + len(extra)), key=lambda x: dense.rank[tuple(x)])
+    if rng.random() < 0.6:
+        names = sorted(set(word))
+        rng.shuffle(names)
+        word = [nm for g in names for nm in word if nm == g]
+        slots = sorted(rng.sample(range(len(ss)), len(word)))
+        place = {i: nm for i, nm in zip(slots, word)}
+        it = iter(extra)
+        pairs = [(place[i] if i in place else next(it), ss[i]) for i in range(len(ss))]
+    else:
+        full = word + extra
+        rng.shuffle(full)
+        pairs = list(zip(full, ss))
+    rng.shuffle(pairs)
+    return [a for a, _ in pairs], [list(b) for _, b in pairs]
+
+
+def overlap_word(rng, fam, guide, pool, kmax=6, tries=12, floor=1e-4):
+    """reference-guided choice: the first candidate whose dense expectation value is not (numerically) zero — a correlator
+    that vanishes by particle-number counting cannot reveal a wrong sign — else the largest one seen"""
+    dense, v = guide
+    best, best_abs = None, -1.0
+    for _ in range(tries):
+        cand = overlap_candidate(rng, fam, dense, pool, kmax)
+        if cand is None:
+            continue
+        a = abs(dense.expect(v, cand[0], [tuple(x) for x in cand[1]]))
+        if a > best_abs:
+            best, best_abs = cand, a
+        if a > floor:
+            break
+    return best
+
+
+def plan_probes(rng, fam, kind, spec, Nx, Ny, quick, recipe=None, guide=None):
     """the measurements to run on one environment of one case (JSON)"""
     sites = f_sites(Nx, Ny)
     bonds = all_bonds(Nx, Ny)
@@ -580,6 +713,9 @@ def plan_probes(rng, fam, kind, spec, Nx, Ny, quick, recipe=None):
         probes.append({"fn": "measure_1site", "ops": ["I"]})
         probes.append({"fn": "measure_1site", "ops": [rng.choice(even1)]})
         probes.append({"fn": "measure_1site", "ops": [rng.choice(even1)], "site": list(rng.choice(sites))})
+        # all sites at once with a list of operators per site (different lists on different sites)
+        probes.append({"fn": "measure_1site", "style": "lists", "ops": [],
+                       "per_site": {f"{x},{y}": [rng.choice(even1 + ["I"]) for _ in range(rng.choice([1, 2, 2]))] for x, y in sites}})
     # nearest neighbours
     if bonds and has_lr and has_tb:
         if kind == "bp" and not chain:
@@ -602,6 +738,9 @@ def plan_probes(rng, fam, kind, spec, Nx, Ny, quick, recipe=None):
         big = Nx * Ny >= 8
         pr = rng.choice(["corner <=", "row <="]) if big else rng.choice(["<=", "<=", "<", "row <=", "corner <="])
         probes.append({"fn": "measure_2site", "ops": pick_pair(), "dirn": dirn, "pairs": pr})
+        ov = rng.choice([None, None, {"max_sweeps": 1}, {"max_sweeps": 3}, {"max_sweeps": 2, "Schmidt_tol": 1e-10}])
+        if ov is not None:     # options of the refinement of the boundary vectors inside measure_2site
+            probes[-1]["opts_var"] = ov
     if kind == "ctm" and Nx * Ny >= 3:
         # a window that is a proper part of the lattice (the legs towards the rest of the lattice are non-trivial)
         for _ in range(1 if quick else 2):
@@ -639,6 +778,24 @@ def plan_probes(rng, fam, kind, spec, Nx, Ny, quick, recipe=None):
             word, ss = word_on(sites, k, distinct=(i % 2 == 0))
             probes.append({"fn": "measure_nsite", "ops": word, "sites": ss})
         probes.append({"fn": "measure_nsite", "ops": ["I", "I"], "sites": [list(rng.choice(sites)), list(rng.choice(sites))]})
+    # many-operator correlators with overlapping fermionic strings (>= 3 charged operators on distinct sites)
+    rich = bool(recipe) and recipe.get("flavour") == "rich"
+    if fam.fermionic and guide is not None and Nx * Ny >= 4 and has_lr:
+        fns = ["measure_nsite"]
+        if kind == "ctm" and Nx >= 2 and Ny >= 2:
+            fns = ["measure_nsite", "measure_nsite_exact"]
+        n_ov = ((8 if quick else 16) if rich else 2)
+        for i in range(n_ov):
+            cand = overlap_word(rng, fam, guide, sites)
+            if cand is not None:
+                probes.append({"fn": fns[i % len(fns)], "ops": cand[0], "sites": cand[1], "overlap": True})
+        if kind == "ctm" and Nx >= 2 and Ny >= 2 and rich:
+            for _ in range(2 if quick else 4):
+                x0, y0 = rng.randrange(Nx - 1), rng.randrange(Ny - 1)
+                win = [(x0, y0), (x0 + 1, y0), (x0, y0 + 1), (x0 + 1, y0 + 1)]
+                cand = overlap_word(rng, fam, guide, win, kmax=4)
+                if cand is not None:
+                    probes.append({"fn": "measure_2x2", "ops": cand[0], "sites": cand[1], "overlap": True})
     if kind == "ctm":
         # exact windows of CTM
         if Nx >= 2 and Ny >= 2:
@@ -733,6 +890,9 @@ def check_probe(ctx, fam, dense, v, recipe, kind, spec, env, probe, signs):
         ncmp += 1
         ctx.count("compared")
         ctx.count(f"cmp:{tag}")
+        if probe.get("overlap"):
+            ctx.count("overlap-word:" + ("nonzero-ref" if abs(ref) > 1e-4 else "zero-ref"))
+            ctx.count(f"overlap-word:charged={sum(1 for nm in names if fam.n[nm] != fam.zero)}")
         ctx.extra["max_err"] = max(ctx.extra.get("max_err", 0.0), float(err)) if not (
             kind == "bd" and probe["fn"] == "measure_nn" and any(fam.odd(nm) for nm in names)) else ctx.extra.get("max_err", 0.0)
         if fam.fermionic and len(names) >= 2:
@@ -942,8 +1102,10 @@ def run_case(ctx, recipe, quick, rng, signs, probes_override=None):
             continue
         if reason:
             ctx.count(f"note:{reason}")
-        ctx.count(f"env:{kind}:{'/'.join(f'{k}={v}' for k, v in sorted(spec.items()))}")
-        for probe in plan_probes(rng, fam, kind, spec, Nx, Ny, quick, recipe):
+        ctx.count(f"env:{kind}:{'/'.join(f'{k}={v}' for k, v in sorted(spec.items()) if k != 'opts_var')}")
+        if kind == "bd":
+            ctx.count(f"env:bd:opts_var:{opts_var_class(spec.get('opts_var'))}")
+        for probe in plan_probes(rng, fam, kind, spec, Nx, Ny, quick, recipe, guide=(dense, v)):
             total += check_probe(ctx, fam, dense, v, recipe, kind, spec, env, probe, signs)
     # NTU metrics + one evolution step
     bonds = all_bonds(Nx, Ny)
@@ -1138,8 +1300,9 @@ QUICK_PLAN = [
     ("sf:U1", 1, 2, "full"), ("sf:Z2", 2, 1, "full"), ("sff:Z2", 1, 2, "full"), ("s12:dense", 2, 1, "full"),
     ("sf:Z2", 1, 3, "full"), ("sf:U1", 3, 1, "full"),
     ("sf:U1", 2, 2, "full"), ("sf:Z2", 2, 2, "full"), ("s12:Z2", 2, 2, "full"), ("sff:U1xU1xZ2", 2, 2, "tree"),
-    ("sf:Z2", 2, 3, "tree"), ("sf:U1", 3, 2, "full"), ("sff:Z2", 2, 2, "full"), ("s12:dense", 2, 3, "full"),
+    ("sf:Z2", 2, 3, "tree"), ("sf:U1", 3, 2, "rich"), ("sff:Z2", 2, 2, "full"), ("s12:dense", 2, 3, "full"),
     ("sf:Z2", 3, 2, "full"), ("sff:U1xU1", 2, 2, "tree"),
+    ("sf:U1", 2, 3, "rich"), ("sff:U1xU1", 2, 2, "rich"),
 ]
 
 CASE_LIMIT_QUICK = 25
